@@ -82,7 +82,18 @@ func (d *dateObject) SetTime(time Time.Time) {
 	d.Set(timeToEpoch(time))
 }
 
+// timeClip is TimeClip of ECMA 262 15.9.1.14: a time value beyond 8.64e15 ms
+// from the epoch (or not finite) is NaN, any other is truncated to an integer.
+func timeClip(epoch float64) float64 {
+	if math.IsNaN(epoch) || math.Abs(epoch) > 8.64e15 {
+		return math.NaN()
+	}
+	return math.Trunc(epoch) + 0 // + 0 turns -0 into +0
+}
+
 func (d *dateObject) Set(epoch float64) {
+	epoch = timeClip(epoch)
+
 	// epoch
 	d.epoch = epochToInteger(epoch)
 
